@@ -21,7 +21,7 @@ def import_block(rng, lang):
     for _ in range(n):
         p = rng.choice(PKGS)
         name = rng.choice(["", "", "_", "x%d" % rng.randrange(3)]) if aliases else ""
-        cm = "" if aliases else rng.choice(["", "", " // c%d" % rng.randrange(9)])
+        cm = "" if aliases else rng.choice(["", "", " // i%d" % rng.randrange(9)])
         specs.append((p, name, cm))
     if rng.random() < 0.4 and specs:
         specs.append(rng.choice(specs))                       # exact duplicate
